@@ -117,10 +117,13 @@ def build_cases(quick):
                                 if path != "inmem":
                                     perms = [None] + ([list(range(N))[::-1]] if N > 1 else [])
                                 for perm in perms:
-                                    (inm if path == "inmem" else fil).append(
-                                        dict(kind="c06", sampler="iterative", N=N, rot=rot, acc=list(acc), path=path, perm=perm, may_raise=True,
-                                             opts=dict(return_logprobs=True, n_requested_samples=nreq, init_batch_size=ibs, n_linear_samples=nlin,
-                                                       growth_factor=2, **({"randomize_prior_order": perm is not None} if path != "inmem" else {}))))
+                                    # (a budget below the library size: the log-probabilities are cut together with the samples)
+                                    for mps in ((None, N - 1) if (N > 1 and nlin == 1) else (None,)):
+                                        (inm if path == "inmem" else fil).append(
+                                            dict(kind="c06", sampler="iterative", N=N, rot=rot, acc=list(acc), path=path, perm=perm, may_raise=True,
+                                                 opts=dict(return_logprobs=True, n_requested_samples=nreq, init_batch_size=ibs, n_linear_samples=nlin,
+                                                           growth_factor=2, **({"max_prior_samples": mps} if mps is not None else {}),
+                                                           **({"randomize_prior_order": perm is not None} if path != "inmem" else {}))))
                 if N == 4 and quick:
                     continue
                 allperms = [list(p) for p in itertools.permutations(range(N))][1:]
